@@ -85,7 +85,7 @@ CHECKS = {
    note="Trusted base: the reference encoder in harness/src/refmodel/gdsspec.rs. Conformant = records in BNF order.",
    technique="property-based testing: differential oracle, reference encoder -> reader under test"),
  "C10": dict(level="fault_enumeration", design="4/C10",
-   text="Exhaustive fault enumeration over 30 generated and 3 repository streams: every truncation point (must be rejected before ENDLIB), every single-record fault (length/type/datatype rewrites, empty payload, delete/duplicate/swap/splice) at every record, a well-formed record of each of the 64 record types x 11 payload shapes inserted at every record boundary, floods of 100 000 copies of such a record read on a 2 MB stack, a stream with a 32 KB record, extreme and unnormalised reals, streams whose records grow and shrink in size, a stream with every optional record on every element kind, hierarchies of 8-64 levels each placing the next 2-4 times (a few kilobytes, astronomically many paths), plus proptest-driven byte mutations and noise. Oracle: the call returns (panics caught in-process; aborts, spinning and blocked calls caught by a supervising process with CPU limit and idle detection), a truncated stream is never accepted, and any returned library re-writes and re-reads to itself; allocation volume at most doubles when the input doubles and thread CPU time grows at most 64-fold for a 16-fold input (five stream shapes, repeated up to three times before it counts).",
+   text="Exhaustive fault enumeration over 30 generated and 3 repository streams: every truncation point (must be rejected before ENDLIB), every single-record fault (length/type/datatype rewrites, empty payload, delete/duplicate/swap/splice) at every record, a well-formed record of each of the 64 record types x 15 payload shapes inserted at every record boundary, floods of 100 000 copies of such a record read on a 2 MB stack, a stream with a 32 KB record, extreme and unnormalised reals, streams whose records grow and shrink in size, a stream with every optional record on every element kind, hierarchies of 8-64 levels each placing the next 2-4 times (a few kilobytes, astronomically many paths), plus proptest-driven byte mutations and noise. Oracle: the call returns (panics caught in-process; aborts, spinning and blocked calls caught by a supervising process with CPU limit and idle detection), a truncated stream is never accepted, and any returned library re-writes and re-reads to itself; allocation volume at most doubles when the input doubles and thread CPU time grows at most 64-fold for a 16-fold input (five stream shapes, repeated up to three times before it counts).",
    note="Termination = returns before the hang watchdog / 60 s CPU; linear time checked on allocation volume and on thread CPU time (n vs 16n). Repository files are faulted at every 9th record in the quick tier, every record in thorough.",
    technique="fault enumeration + property-based byte mutation; crash/hang oracle via supervised child processes; re-write round-trip oracle"),
 
